@@ -140,10 +140,16 @@ class SimpleOperationExecutor:
         try:
             result = self.file_comparison_result(
                 filename, file_comparison_name)
-        except FileNotFoundError:
+        except (FileNotFoundError, NotADirectoryError):
+            # NotADirectoryError: one of the parents is a regular file
             raise FileNotFoundError(
                 'The requested file does not exist: {:s}'.format(filename))
         except IsADirectoryError:
+            if not self.is_dir(filename, created_files):
+                # The directory is only present in the real file system, e.g.
+                # because it was created during the previous build
+                raise FileNotFoundError(
+                    'The requested file does not exist: {:s}'.format(filename))
             raise IsADirectoryError(
                 'Cannot read a directory: {:s}'.format(filename))
 
